@@ -48,7 +48,7 @@ Section Round.
     rewrite !conv_none. cbn [bind fst snd]. unfold extrapolate.
     repeat (progress (try rewrite !conv_none; cbn [bind validate2 fst snd])).
     rewrite (conv_dist1 Nresolution) by (auto; right; reflexivity).
-    cbn [bind fst snd eqb RO zeroT ofZ]. rewrite !Reqb_false by lra. cbn [orb].
+    unfold round_shape_kw. cbn [bind fst snd eqb RO zeroT ofZ]. rewrite !Reqb_false by lra. cbn [orb].
     rewrite round_shape_R. cbn [bind fst snd div mul sub add twoT ofZ RO validate_shape].
     replace (2 * ((y1 - y0) / 2) / dy) with ((y1 - y0) / dy) by (field; lra).
     replace (2 * ((x1 - x0) / 2) / dx) with ((x1 - x0) / dx) by (field; lra).
